@@ -86,10 +86,10 @@ CHECKS = {
         text='Composition/gating of the stages checked by TLC; ObsStable judged by TLC on runs of runnable programs: the source, the tree after every stage of minify() '
              '(outside seams, compiled as an AST without any printer) and the printed result must give the same output, exception type and public namespace. '
              'Programs: the enumerated scope programs (two statement orders), suite cases and hoist placements of the other specifications concretised runnable, '
-             'the arithmetic cells of Fold.tla (120 to a module, seeded order) and 12 hand-written seed scripts; scope programs also with adversarial names and with their stores in other '
+             'the arithmetic cells of Fold.tla (120 to a module, seeded order), 12 hand-written seed scripts and 122 programs that rebind `object` / a builtin exception (10 rebindings x 6 use sites); scope programs also with adversarial names and with their stores in other '
              'spellings one suite down; options: defaults and seeded subsets of the documented-safe options (seeds: 12 / 200 subsets).',
         note='Observation excludes documented reflective views (renamed names, annotations, line numbers, parameter names of functions). Runs on CPython 3.12; known '
-             'findings D18 (PEP 709) and D20 (promoted docstring) are matched by shape.',
+             'findings D18 (PEP 709), D20 (promoted docstring) and D45 (rebound `object` dropped as a base) are matched by shape.',
         technique='TLA+ (TLC) model of the pipeline + trace validation of per-stage behaviour observations of TLC-enumerated programs',
         design_ref='3.9, 5 (C01)'),
     'C02': dict(
@@ -156,7 +156,8 @@ CHECKS = {
         text='Preserved checked by TLC on the renamer model under every option combination; the real renamer is replayed on every enumerated program with '
              'the name listed for locals / globals / both; a generated module is minified under 5 __all__ forms x option pairs x local and global name lists x {other transforms at their defaults, all other transforms off} '
              '(locally bound, global, parameter, builtin, absent) given as list or single string, and through awslambda(): occurrence counts of each listed '
-             'name, identity of shape with the un-preserved output, and a run of both programs, judged by TLC.',
+             'name, identity of shape with the un-preserved output, and a run of both programs, judged by TLC. The single-string form is also replayed on the other interpreters (2.7 ... 3.13), '
+             'once as the native str and once as the text type (unicode on 2.7), judged by the same trace specification.',
         note='Tuples are outside the documented argument type. CLI list spellings are judged in C13.',
         technique='TLA+ (TLC) model checking + trace validation of observed renamings',
         design_ref='3.2, 5 (C10)'),
